@@ -22,6 +22,34 @@ fn tmp_base() -> String {
     std::env::var("ABYSIM_TMP").unwrap_or_else(|_| "/tmp".to_string())
 }
 
+static EXEC_EXE: std::sync::Mutex<Option<String>> = std::sync::Mutex::new(None);
+
+pub fn set_exec_exe(e: Option<String>) {
+    *EXEC_EXE.lock().unwrap() = e;
+}
+
+pub fn exec_exe() -> std::path::PathBuf {
+    match EXEC_EXE.lock().unwrap().clone() {
+        Some(e) => std::path::PathBuf::from(e),
+        None => std::env::current_exe().unwrap(),
+    }
+}
+
+/// path of the debug-assertions flavour of this binary, if it has been built
+pub fn dbg_exe() -> Option<String> {
+    let me = std::env::current_exe().ok()?;
+    let s = me.to_string_lossy().to_string();
+    if s.contains("/dbg/") {
+        return Some(s);
+    }
+    let d = s.replace("/release/", "/dbg/");
+    if d != s && std::path::Path::new(&d).exists() {
+        Some(d)
+    } else {
+        None
+    }
+}
+
 pub struct ExecResult {
     pub violation: Option<Violation>,
     pub inconclusive: Option<String>,
@@ -44,7 +72,7 @@ pub fn exec_file(path: &str, cpu_budget: u64, nsteps: u32) -> ExecResult {
 }
 
 pub fn exec_file_p(path: &str, cpu_budget: u64, nsteps: u32, profile: &str) -> ExecResult {
-    let exe = std::env::current_exe().unwrap();
+    let exe = exec_exe();
     let out = Command::new(exe).arg("exec").arg(path).arg(cpu_budget.to_string()).stdin(Stdio::null()).stderr(Stdio::null()).output().expect("spawn exec child");
     let text = String::from_utf8_lossy(&out.stdout).to_string();
     let mut root = None;
@@ -138,6 +166,7 @@ pub fn load_findings() -> Vec<Finding> {
 // ---------------- minimisation ----------------
 
 fn same_sig(r: &ExecResult, sig: &str) -> bool {
+    let sig = sig.strip_suffix("+dbg").unwrap_or(sig);
     r.violation.as_ref().map(|v| v.signature == sig).unwrap_or(false)
 }
 
@@ -268,7 +297,7 @@ fn spawn_worker(prop: &str, tier: Tier, seed: u64, start: u64, stride: u64, end:
     for s in 0..4 {
         status.set(s, 0);
     }
-    let exe = std::env::current_exe().unwrap();
+    let exe = exec_exe();
     let mut child = Command::new(exe)
         .arg("worker")
         .args([prop, tier.name(), &seed.to_string(), &start.to_string(), &stride.to_string(), &end.to_string(), &status_path, &cpu.to_string()])
@@ -306,6 +335,8 @@ pub struct CheckCfg {
     pub cpu_budget: u64,
     pub write_evidence: bool,
     pub quiet: bool,
+    /// "" = release flavour; "dbg" = workers and exec children use the debug-assertions build
+    pub flavour: String,
 }
 
 pub struct CheckResult {
@@ -322,6 +353,17 @@ pub fn level_of(prop: &str) -> &'static str {
 }
 
 pub fn run_check(cfg: &CheckCfg) -> CheckResult {
+    if cfg.flavour == "dbg" {
+        set_exec_exe(dbg_exe());
+    } else {
+        set_exec_exe(None);
+    }
+    let r = run_check_inner(cfg);
+    set_exec_exe(None);
+    r
+}
+
+fn run_check_inner(cfg: &CheckCfg) -> CheckResult {
     let t0 = Instant::now();
     let (tx, rx) = mpsc::channel::<(usize, String)>();
     let w = cfg.workers.max(1);
@@ -486,6 +528,11 @@ pub fn run_check(cfg: &CheckCfg) -> CheckResult {
     let findings = load_findings();
     found.sort_by(|a, b| (a.index, a.sub).cmp(&(b.index, b.sub)));
     let mut by_sig: BTreeMap<String, Vec<usize>> = BTreeMap::new();
+    if cfg.flavour == "dbg" {
+        for f in found.iter_mut() {
+            f.violation.signature = format!("{}+dbg", f.violation.signature);
+        }
+    }
     for (i, f) in found.iter().enumerate() {
         by_sig.entry(f.violation.signature.clone()).or_default().push(i);
     }
@@ -538,7 +585,12 @@ pub fn run_check(cfg: &CheckCfg) -> CheckResult {
                     eprintln!("harness: violation {sig} of run {} did not reproduce in a fresh process (got {:?})", f.index, first.violation.as_ref().map(|v| &v.signature));
                     (ep.clone(), f.violation.clone(), false)
                 };
-                let rf = ReplayFile { property: cfg.prop.clone(), tier: cfg.tier.name().to_string(), base_seed: cfg.seed, run_index: f.index, episode: min_ep, violation: viol.clone(), minimised, original_steps: orig_steps };
+                let mut viol = viol;
+                if cfg.flavour == "dbg" && !viol.signature.ends_with("+dbg") {
+                    viol.signature = format!("{}+dbg", viol.signature);
+                    viol.detail = format!("[build with debug assertions] {}", viol.detail);
+                }
+                let rf = ReplayFile { property: cfg.prop.clone(), tier: cfg.tier.name().to_string(), base_seed: cfg.seed, run_index: f.index, episode: min_ep, violation: viol.clone(), minimised, original_steps: orig_steps, flavour: cfg.flavour.clone() };
                 std::fs::write(&path, serde_json::to_string_pretty(&rf).unwrap()).expect("write replay file");
                 violation_lines.push(format!("VIOLATION property={} replay={} sig={} runs={} detail={}", cfg.prop, path, sig, idxs.len(), viol.detail));
             }
@@ -648,7 +700,21 @@ pub fn replay_main(path: &str) -> i32 {
             return 2;
         }
     };
-    let r = exec_file_p(path, 120, rf.episode.steps.len() as u32, &rf.episode.profile);
+    if rf.flavour == "dbg" {
+        match dbg_exe() {
+            Some(e) => set_exec_exe(Some(e)),
+            None => {
+                eprintln!("harness: the debug-assertions flavour is not built (cargo build --profile dbg)");
+                return 2;
+            }
+        }
+    }
+    let mut r = exec_file_p(path, 120, rf.episode.steps.len() as u32, &rf.episode.profile);
+    if rf.flavour == "dbg" {
+        if let Some(v) = r.violation.as_mut() {
+            v.signature = format!("{}+dbg", v.signature);
+        }
+    }
     match &r.violation {
         Some(v) if v.signature == rf.violation.signature => {
             let known = load_findings().iter().any(|k| k.property == rf.property && k.sig == v.signature);
